@@ -9,7 +9,7 @@ from framework import CaseResult, Check
 from stackcheck import gen_ops
 
 SEC_NUM = {'extheader': 1, 'exefs': 2, 'romfs': 3, 'logo': 5, 'plain': 6}
-NAMES = ['icon', 'banner', '.code', 'logo', 'x', 'data1', 'zz']
+NAMES = ['icon', 'banner', '.code', 'logo', 'x', 'data1', 'zz', 'Icon', 'BANNER', 'banner2', 'ico', 'Banner']   # incl. near misses of the primary-key names
 
 
 def gen_desc(rng):
